@@ -121,14 +121,14 @@ fn gs1_extra_ok(k: &str) -> bool {
 fn gs1_player() -> impl Strategy<Value = Gs1Player> {
     (
         val(16),
-        prop::option::of(any::<u8>()),
-        any::<u16>(),
+        prop::option::of(crate::util::num::<u8>()),
+        crate::util::num::<u16>(),
         prop::option::of(val(10)),
         prop::option::of(val(10)),
         prop::option::of(val(10)),
-        prop_oneof![any::<i32>(), -5i32..100],
-        prop::option::of(any::<u32>()),
-        prop::option::of(any::<u32>()),
+        prop_oneof![crate::util::num::<i32>(), -5i32..100],
+        prop::option::of(crate::util::num::<u32>()),
+        prop::option::of(crate::util::num::<u32>()),
         prop::option::of(any::<bool>()),
     )
         .prop_map(|(name, team, ping, face, skin, mesh, frags, deaths, health, secret)| {
@@ -150,12 +150,12 @@ fn gs1_player() -> impl Strategy<Value = Gs1Player> {
 pub fn gs1_state() -> impl Strategy<Value = Gs1State> {
     (
         (val(60), val(30), prop::option::of(val(30)), prop::option::of(val(30)), prop::option::of(val(20)), prop::option::of(val(20))),
-        (password_text(), val(20), val(12), any::<u32>(), prop::option::of(any::<u8>())),
+        (password_text(), val(20), val(12), crate::util::num::<u32>(), prop::option::of(crate::util::num::<u8>())),
         prop::option::of(prop::sample::select(vec!["true", "false", "True", "False"]).prop_map(|s| s.to_string())),
         any::<bool>(),
         prop_oneof![3 => prop::collection::vec(gs1_player(), 0..4), 2 => prop::collection::vec(gs1_player(), 4..17), 1 => prop::collection::vec(gs1_player(), 17..65)],
         prop::collection::vec((extra_key(), val(30)), 0..20),
-        (any::<u32>(), 1usize..8, any::<prop::sample::Index>()),
+        (crate::util::num::<u32>(), 1usize..8, any::<prop::sample::Index>()),
     )
         .prop_map(
             |((hostname, mapname, maptitle, admin_email, admin_name, admin_alt), (password, gametype, gamever, maxplayers, minplayers), tournament, playername_key, players, extras, (query_id, parts, rot))| {
@@ -390,10 +390,10 @@ const NUL_EXCL: &[char] = &[];
 pub fn gs2_state() -> impl Strategy<Value = Gs2State> {
     (
         (text(NUL_EXCL, 40), text(NUL_EXCL, 24), prop::sample::select(vec!["0", "1", "2", ""]).prop_map(|s| s.to_string())),
-        (any::<u32>(), prop::option::of(any::<u32>()), prop::option::of(prop_oneof![0u32..100, any::<u32>()])),
+        (crate::util::num::<u32>(), prop::option::of(crate::util::num::<u32>()), prop::option::of(prop_oneof![0u32..100, crate::util::num::<u32>()])),
         prop::collection::vec((extra_key(), text(NUL_EXCL, 20)), 0..10),
-        prop_oneof![3 => prop::collection::vec((text(NUL_EXCL, 12), any::<u16>(), any::<u16>(), any::<u16>()), 0..4), 2 => prop::collection::vec((text(NUL_EXCL, 10), any::<u16>(), any::<u16>(), 0u16..4), 4..65)],
-        prop::collection::vec((text(NUL_EXCL, 12), any::<u16>()), 0..9),
+        prop_oneof![3 => prop::collection::vec((text(NUL_EXCL, 12), crate::util::num::<u16>(), crate::util::num::<u16>(), crate::util::num::<u16>()), 0..4), 2 => prop::collection::vec((text(NUL_EXCL, 10), crate::util::num::<u16>(), crate::util::num::<u16>(), 0u16..4), 4..65)],
+        prop::collection::vec((text(NUL_EXCL, 12), crate::util::num::<u16>()), 0..9),
         (any::<prop::sample::Index>(), Just([0u8, 1, 2, 3]).prop_shuffle(), any::<bool>()),
     )
         .prop_map(|((hostname, mapname, password), (maxplayers, minplayers, numplayers), extras, players, teams, (rot, col_order, team_cols_swapped))| {
@@ -613,7 +613,7 @@ fn nonempty(max: usize) -> impl Strategy<Value = String> {
 pub fn gs3_challenge() -> impl Strategy<Value = i32> {
     prop_oneof![
         2 => Just(0i32),
-        4 => any::<i32>(),
+        4 => crate::util::num::<i32>(),
         2 => -70_000i32..70_000,
         1 => prop::sample::select(vec![i32::MIN, i32::MAX, -1, 1, 0x41, 255, 256, 65535, 65536, -65536]),
     ]
@@ -623,12 +623,12 @@ pub fn gs3_state() -> impl Strategy<Value = Gs3State> {
     (
         gs3_challenge(),
         (text(NUL_EXCL, 40), text(NUL_EXCL, 24), password_text(), text(NUL_EXCL, 16), text(NUL_EXCL, 10)),
-        (any::<u32>(), prop::option::of(any::<u8>()), prop::option::of(prop_oneof![0u32..100, any::<u32>()])),
+        (crate::util::num::<u32>(), prop::option::of(crate::util::num::<u8>()), prop::option::of(prop_oneof![0u32..100, crate::util::num::<u32>()])),
         prop::option::of(prop::sample::select(vec!["true", "false", "True", "False"]).prop_map(|s| s.to_string())),
         prop::collection::vec((extra_key(), text(NUL_EXCL, 20)), 0..16),
-        prop_oneof![3 => prop::collection::vec((nonempty(14), any::<i32>(), any::<u16>(), any::<u8>(), any::<u32>(), any::<u32>(), any::<u32>()), 0..4),
-                    2 => prop::collection::vec((nonempty(14), -50i32..900, 0u16..500, 0u8..4, 0u32..50, any::<u32>(), 0u32..9000), 4..65)],
-        prop::collection::vec((nonempty(12), any::<i32>()), 0..9),
+        prop_oneof![3 => prop::collection::vec((nonempty(14), crate::util::num::<i32>(), crate::util::num::<u16>(), crate::util::num::<u8>(), crate::util::num::<u32>(), crate::util::num::<u32>(), crate::util::num::<u32>()), 0..4),
+                    2 => prop::collection::vec((nonempty(14), -50i32..900, 0u16..500, 0u8..4, 0u32..50, crate::util::num::<u32>(), 0u32..9000), 4..65)],
+        prop::collection::vec((nonempty(12), crate::util::num::<i32>()), 0..9),
         (any::<bool>(), any::<prop::sample::Index>(), prop_oneof![Just(1800usize), 60usize..400, 400usize..1800]),
     )
         .prop_map(|(challenge, (hostname, mapname, password, gametype, gamever), (maxplayers, minplayers, numplayers), tournament, extras, players, teams, (with_pid, rot, packet_budget))| {
